@@ -46,6 +46,106 @@ def bool_eval(e, env):
     raise AnalysisBroken('guard wrapper returns an expression outside the boolean fragment: ' + key)
 
 
+class _Returned(Exception):
+    def __init__(self, v):
+        self.v = v
+
+
+def guard_result(F, fn, user_ids, n_user, before, after):
+    """value returned by a leaf guard wrapper when the cancellation flag reads `before` ahead of the user code and `after` behind it"""
+    st = {'seen': 0}
+
+    def flag():
+        if st['seen'] == 0:
+            return before
+        if st['seen'] >= n_user:
+            return after
+        raise AnalysisBroken('%s reads the cancellation flag between two user calls' % fn.short)
+
+    def ev(e, env, g, depth=0):
+        e = ir.strip(e)
+        k = e['k']
+        if k == 'c':
+            return bool(e['v'])
+        if k == 'mem' and e['f'] == '_cancelled':
+            return flag()
+        if k == 'var':
+            if e['id'] in env:
+                return env[e['id']]
+            raise AnalysisBroken('guard wrapper %s uses %s outside the boolean fragment' % (fn.short, e.get('n')))
+        if k == 'un' and e['op'] == '!':
+            return not ev(e['e'], env, g, depth)
+        if k == 'bin' and e['op'] == '&&':
+            return ev(e['l'], env, g, depth) and ev(e['r'], env, g, depth)
+        if k == 'bin' and e['op'] == '||':
+            return ev(e['l'], env, g, depth) or ev(e['r'], env, g, depth)
+        if k == 'bin' and e['op'] in ('==', '!='):
+            r = ev(e['l'], env, g, depth) == ev(e['r'], env, g, depth)
+            return r if e['op'] == '==' else not r
+        if k == 'cond':
+            return ev(e['t'], env, g, depth) if ev(e['c'], env, g, depth) else ev(e['f'], env, g, depth)
+        if k == 'call' and e.get('fn') is not None and F.fn(e['fn']) is not None and depth < 4 and id(e) not in user_ids:
+            h = F.fn(e['fn'])
+            cenv = {}
+            for p, a in zip(h.params, e.get('args', [])):
+                try:
+                    cenv[p['id']] = ev(a, env, g, depth)
+                except AnalysisBroken:
+                    cenv[p['id']] = None      # an object (the control): its flag is read through flag()
+            try:
+                run_block(h.body, cenv, h, depth + 1)
+            except _Returned as r:
+                return r.v
+            raise AnalysisBroken('helper %s returns nothing' % h.short)
+        raise AnalysisBroken('guard wrapper returns an expression outside the boolean fragment: ' + ir.pp(e))
+
+    def run_block(s, env, g, depth):
+        if s is None:
+            return
+        k = s.get('s')
+        if k == 'block':
+            for t in s['b']:
+                run_block(t, env, g, depth)
+        elif k == 'decl':
+            for v in s['vars']:
+                if v.get('init') is not None and 'unknown_decl' not in v:
+                    for x in ir.walk(v['init']):
+                        if id(x) in user_ids:
+                            st['seen'] += 1
+                    try:
+                        env[v['id']] = ev(v['init'], env, g, depth)
+                    except AnalysisBroken:
+                        pass      # not a boolean (scoped origin, logger pointer, ...)
+        elif k == 'expr':
+            for x in ir.walk(s['e']):
+                if id(x) in user_ids:
+                    st['seen'] += 1
+        elif k == 'ret':
+            raise _Returned(ev(s['e'], env, g, depth))
+        elif k == 'if':
+            # logging only: `if (logger) record(...)`: no boolean of interest is defined inside; user calls inside a branch are refused
+            for t in ir.walk_stmts(s):
+                for e in ir.stmt_exprs(t):
+                    for x in ir.walk(e):
+                        if id(x) in user_ids:
+                            raise AnalysisBroken('%s calls user code conditionally' % fn.short)
+            # an if/else that returns on both arms: evaluate the taken arm
+            try:
+                cv = ev(s['c'], env, g, depth)
+            except AnalysisBroken:
+                return
+            run_block(s['t'] if cv else s.get('e'), env, g, depth)
+        elif k == 'null':
+            return
+        else:
+            raise AnalysisBroken('%s: statement kind %s in a guard wrapper' % (fn.short, k))
+    try:
+        run_block(fn.body, {}, fn, 0)
+    except _Returned as r:
+        return r.v
+    raise AnalysisBroken('%s returns nothing' % fn.short)
+
+
 def wrappers(run, F, E):
     for fn in F.find('S_'):
         if fn.m not in ('deepEntryGuard', 'deepExitGuard'):
@@ -55,25 +155,17 @@ def wrappers(run, F, E):
             ok = len(rets) == 1 and ir.const_val(rets[0]['e']) == 0
             run.ob('C03.e', 'S_<Empty>::%s never cancels' % fn.m, ok, where=fn.pat, key='empty state %s cancels' % fn.m)
             continue
-        run.require(len(rets) == 1, '%s has %d returns' % (fn.short, len(rets)))
+        # The returned value as a function of the cancellation flag *before* and *after* the user code, whatever the spelling: the body
+        # is interpreted statement by statement; a read of control._cancelled yields `before` until the first user call and `after`
+        # from the last one on (a read in between is refused); boolean locals and small helper functions are evaluated.
         c = cfgmod.cfg_of(fn)
-        decls = E.decls(fn)
-        # atoms: a const local initialised from control._cancelled before the user code ("before"), and control._cancelled at the return ("after")
-        before_vars = [v for v in decls.values() if v.get('init') is not None and ir.pp(ir.strip(v['init'])) == 'control._cancelled' and not v.get('ref')]
-        user = [n for n in c.events(('call',)) if anchors.call_target(F, E, fn, n)[1] is not None or
-                (anchors.call_target(F, E, fn, n)[0] is not None and anchors.call_target(F, E, fn, n)[0].tkey == 'ffsm2::detail::A_')]
-        ok_pos = True
-        for v in before_vars:
-            dn = c.events(('decl',), lambda n: n.e.get('id') == v['id'])
-            ok_pos = ok_pos and len(dn) == 1 and all(c.dominates(dn[0], u) for u in user)
-        retn = c.events(('ret',))
-        ok_pos = ok_pos and len(retn) == 1 and all(c.dominates(u, retn[0]) for u in user) and bool(user)
+        user_nodes = [n for n in c.events(('call',)) if anchors.call_target(F, E, fn, n)[1] is not None or
+                      (anchors.call_target(F, E, fn, n)[0] is not None and anchors.call_target(F, E, fn, n)[0].tkey == 'ffsm2::detail::A_')]
+        user_ids = set(id(n.e) for n in user_nodes)
+        ok_pos = bool(user_nodes)
         verdicts = {}
         for before, after in itertools.product([False, True], repeat=2):
-            env = {'control._cancelled': after}
-            for v in before_vars:
-                env[v['n']] = before
-            verdicts[(before, after)] = bool_eval(rets[0]['e'], env)
+            verdicts[(before, after)] = guard_result(F, fn, user_ids, len(user_nodes), before, after)
         ok = ok_pos and verdicts[(False, True)] is True and verdicts[(False, False)] is False and verdicts[(True, False)] is False
         run.ob('C03.e', 'S_::%s returns "newly cancelled" (F,T)->true, (*,F)->false; flag sampled around the user code' % fn.m, ok, where=fn.pat,
                detail=None if ok else {'truth_table(before,after)': {str(k): v for k, v in verdicts.items()}, 'sampling_ok': ok_pos},
